@@ -37,7 +37,7 @@ func c45Weight(c *c45Ch, withNil bool) *wrapperspb.UInt32Value {
 // weight in {0,1,2^32-1} (+unset in thorough)), each with <=2 endpoints
 // (weight in {unset,0,1,2^32-1}; address equal to an earlier endpoint's or
 // fresh: every equality pattern; thorough: also "endpoint without address";
-// quick: at most 3 endpoints in total);
+// quick: at most 2 endpoints in total);
 // for <=1 locality additionally cluster name {set, empty} and drop policy
 // {none, per-hundred, invalid denominator}.
 func c45GenEDS(c *c45Ch) proto.Message {
@@ -59,8 +59,8 @@ func c45GenEDS(c *c45Ch) proto.Message {
 		loc.Priority = []uint32{0, 1, 2, 5}[c.N(4)]
 		loc.LoadBalancingWeight = c45Weight(c, c.Thorough)
 		maxEp := 2
-		if !c.Thorough && i == 1 && len(cla.Endpoints[0].LbEndpoints) == 2 {
-			maxEp = 1 // quick tier: at most 3 endpoints in total
+		if !c.Thorough && i == 1 {
+			maxEp = 2 - len(cla.Endpoints[0].LbEndpoints) // quick tier: at most 2 endpoints in total
 		}
 		nEp := c.N(maxEp + 1)
 		for j := 0; j < nEp; j++ {
@@ -138,8 +138,10 @@ func c45PerFilter(c *c45Ch, n int) map[string]*anypb.Any {
 		return map[string]*anypb.Any{"f": fc}
 	case 3: // FilterConfig wrapper with garbage inside
 		return map[string]*anypb.Any{"f": {TypeUrl: "type.googleapis.com/envoy.config.route.v3.FilterConfig", Value: []byte{0xff}}}
-	case 4: // router override
+	case 4: // router override (the router filter accepts no override)
 		return map[string]*anypb.Any{"router": {TypeUrl: "type.googleapis.com/envoy.extensions.filters.http.router.v3.Router"}}
+	case 5: // fault override (valid)
+		return map[string]*anypb.Any{"fault": {TypeUrl: "type.googleapis.com/envoy.extensions.filters.http.fault.v3.HTTPFault"}}
 	}
 	return nil
 }
@@ -236,13 +238,23 @@ func c45WC(name string, w *wrapperspb.UInt32Value) *v3routepb.WeightedCluster_Cl
 // cluster specifier plugin (declared+valid, undeclared, declared optional
 // unsupported); cluster_header (unknown specifier); route without specifier;
 // non-forwarding; redirect; direct response; filter action; missing.
-func c45Action(c *c45Ch, r *v3routepb.Route) {
+func c45Action(c *c45Ch, r *v3routepb.Route, full bool) {
 	ra := &v3routepb.RouteAction{}
 	switch c.N(12) {
 	case 0:
 		ra.ClusterSpecifier = &v3routepb.RouteAction_Cluster{Cluster: "A"}
 	case 1:
 		wc := &v3routepb.WeightedCluster{}
+		if !full { // reduced menu for multi-route shapes in the quick tier: totals 0 (empty), 0 (zero weight), overflow
+			switch c.N(3) {
+			case 1:
+				wc.Clusters = append(wc.Clusters, c45WC("A", c45U32(0)))
+			case 2:
+				wc.Clusters = append(wc.Clusters, c45WC("A", c45U32(1)), c45WC("B", c45U32(math.MaxUint32)))
+			}
+			ra.ClusterSpecifier = &v3routepb.RouteAction_WeightedClusters{WeightedClusters: wc}
+			break
+		}
 		n := c.N(3)
 		for i := 0; i < n; i++ {
 			wc.Clusters = append(wc.Clusters, c45WC([]string{"A", "B"}[i], c45Weight(c, true)))
@@ -308,7 +320,7 @@ func c45RouteDecor(c *c45Ch, r *v3routepb.Route) {
 		rr.Route.HashPolicy = []*v3routepb.RouteAction_HashPolicy{{PolicySpecifier: &v3routepb.RouteAction_HashPolicy_Header_{Header: &v3routepb.RouteAction_HashPolicy_Header{HeaderName: "h",
 			RegexRewrite: &v3matcherpb.RegexMatchAndSubstitute{Pattern: &v3matcherpb.RegexMatcher{Regex: "a+"}, Substitution: "x"}}}}}
 	}
-	r.TypedPerFilterConfig = c45PerFilter(c, 5)
+	r.TypedPerFilterConfig = c45PerFilter(c, 6)
 }
 
 func c45CSPDecls() []*v3routepb.ClusterSpecifierPlugin {
@@ -320,14 +332,14 @@ func c45CSPDecls() []*v3routepb.ClusterSpecifierPlugin {
 }
 
 // c45GenRoute: one route = match kind x header kind x action.
-func c45GenRoute(c *c45Ch, headers bool) *v3routepb.Route {
+func c45GenRoute(c *c45Ch, headers, fullActions bool) *v3routepb.Route {
 	r := &v3routepb.Route{Match: c45RouteMatch(c.N(c45MatchKinds))}
 	if headers && r.Match != nil {
 		if h := c45Header(c.N(c45HeaderKinds)); h != nil {
 			r.Match.Headers = []*v3routepb.HeaderMatcher{h}
 		}
 	}
-	c45Action(c, r)
+	c45Action(c, r, fullActions)
 	return r
 }
 
@@ -335,8 +347,9 @@ func c45GenRoute(c *c45Ch, headers bool) *v3routepb.Route {
 //
 //	0: no virtual host; name {set, empty}; plugin declarations {none, standard, unknown required, stub parse error}
 //	1: one virtual host, one route: match x header x action (full product)
-//	2: one virtual host, two routes: (match x action)^2 (quick), (match x header x action) x (match x action) (thorough)
-//	3: two virtual hosts with one route each: (match x action)^2
+//	2: one virtual host, two routes: (match x action')^2 (quick), (match x header x action) x (match x action) (thorough)
+//	3: two virtual hosts with one route each: (match x action')^2
+//	   (action' = action with the weighted-cluster weights reduced to three lists: empty, [0], [1, 2^32-1])
 //	4: one good route x decorations (retry x max-stream-duration x hash policy x per-filter override) x virtual-host retry x virtual-host per-filter override
 func c45GenRDS(c *c45Ch) proto.Message {
 	rc := &v3routepb.RouteConfiguration{Name: "route-c45", ClusterSpecifierPlugins: c45CSPDecls()}
@@ -357,21 +370,21 @@ func c45GenRDS(c *c45Ch) proto.Message {
 			rc.ClusterSpecifierPlugins = append(rc.ClusterSpecifierPlugins, &v3routepb.ClusterSpecifierPlugin{Extension: &v3corepb.TypedExtensionConfig{Name: "x", TypedConfig: &anypb.Any{TypeUrl: c45CSPTypeURL, Value: []byte("bad")}}})
 		}
 	case 1:
-		rc.VirtualHosts = []*v3routepb.VirtualHost{vh(c45GenRoute(c, true))}
+		rc.VirtualHosts = []*v3routepb.VirtualHost{vh(c45GenRoute(c, true, true))}
 	case 2:
-		r1 := c45GenRoute(c, c.Thorough)
-		r2 := c45GenRoute(c, false)
+		r1 := c45GenRoute(c, c.Thorough, c.Thorough)
+		r2 := c45GenRoute(c, false, c.Thorough)
 		rc.VirtualHosts = []*v3routepb.VirtualHost{vh(r1, r2)}
 	case 3:
-		r1 := c45GenRoute(c, false)
-		r2 := c45GenRoute(c, false)
+		r1 := c45GenRoute(c, false, false)
+		r2 := c45GenRoute(c, false, false)
 		rc.VirtualHosts = []*v3routepb.VirtualHost{vh(r1), vh(r2)}
 	case 4:
 		r := &v3routepb.Route{Match: c45RouteMatch(0), Action: &v3routepb.Route_Route{Route: &v3routepb.RouteAction{ClusterSpecifier: &v3routepb.RouteAction_Cluster{Cluster: "A"}}}}
 		c45RouteDecor(c, r)
 		v := vh(r)
 		v.RetryPolicy = c45Retry(c, 3)
-		v.TypedPerFilterConfig = c45PerFilter(c, 3)
+		v.TypedPerFilterConfig = c45PerFilter(c, 6)
 		rc.VirtualHosts = []*v3routepb.VirtualHost{v}
 	}
 	return rc
